@@ -506,7 +506,21 @@ type ImageFile struct {
 // for every file, all bytes up to its synced length and any prefix of the
 // rest; Create/Remove/Rename/SetMeta are atomic and durable on return.
 func Image(log []Op, n int, class int, rng *rand.Rand) (*RecStor, []ImageFile) {
+	return ImageFrom(nil, log, n, class, rng)
+}
+
+// ImageFrom is Image starting from the (fully durable) contents of base instead
+// of an empty storage: used for a crash during the recovery of an earlier image.
+func ImageFrom(base *RecStor, log []Op, n int, class int, rng *rand.Rand) (*RecStor, []ImageFile) {
 	s := NewRecStor()
+	if base != nil {
+		base.mu.Lock()
+		for fd, f := range base.files {
+			s.files[fd] = &rfile{data: append([]byte(nil), f.data...), synced: len(f.data)}
+		}
+		s.meta, s.hasMeta = base.meta, base.hasMeta
+		base.mu.Unlock()
+	}
 	for i := 0; i < n; i++ {
 		o := &log[i]
 		switch o.Kind {
